@@ -189,6 +189,25 @@ def run(c):
                     coq[int(mm.group(1))] = tuple(x == "true" for x in mm.groups()[1:])
                 if not re.search(r"RES\s*=", out):
                     c.obligation("coq-eval-parse:" + fname, False, out[-1500:])
+        # load histories (two files into one engine, optional GroupFilter): ids < 0
+        byid = {cs["id"]: cs for cs in cases}
+        for rid, res in sorted(results.items()):
+            if rid >= 0:
+                continue
+            c.count()
+            names = [byid[i]["name"] for i in res.get("pair") or [] if i in byid]
+            inp = {"load_history": names, "rules_paths": [byid[i].get("rules_path") for i in res.get("pair") or [] if i in byid],
+                   "group_filter": "len(name) even" if res.get("filtered") else None, "seed": c.seed}
+            ea, eb = res.get("load_err_a"), res.get("load_err_b")
+            if (ea is None) != (eb is None) or (ea and eb and ea != eb):
+                c.fail("oracle", "loading two rules files into one engine: Load and LoadFromIR disagree", input=inp,
+                       observed={"Load": ea, "LoadFromIR": eb}, expected="same outcome")
+            elif not ea and not (res["groups_equal"] and res["reports_equal"]):
+                c.fail("oracle", "engine built from two printed IR files differs from the engine built from the two sources",
+                       input=inp, observed=res.get("load_diff"), expected="same LoadedGroups and same reports")
+            elif not ea:
+                c.coverage["load_histories_compared"] = c.coverage.get("load_histories_compared", 0) + 1
+                c.nontriv(("history", tuple(names), bool(res.get("filtered"))))
         ops_seen = set()
         for cs in cases:
             c.count()
